@@ -134,6 +134,16 @@ VARIANTS = [
                             "    return self._adaptive_transition(prng_key, kernel_state, model_state, epoch)"
                             ).body[0], nd],
       note="a kernel bypasses the dispatcher: always adaptive", expect_rule="C07.R6"),
+    V("c07_tune_skipped_short_history", "M", E, "Engine._tune_kernels",
+      lambda nd: isinstance(nd, ast.Assign) and ast.unparse(nd.targets[0]) == "history"
+      and "get_current_chain" in ast.unparse(nd.value),
+      lambda nd: [nd] + stmt("if jax.tree_util.tree_leaves(history)[0].shape[1] < 2:\n    return"),
+      note="no kernel is tuned after an adaptation epoch that recorded one draw",
+      expect_rule="C07.R8"),
+    V("c07_tune_extra_gate", "M", E, "Engine._tune_kernels",
+      *replace_expr("EpochType.is_adaptation(epoch.config.type)",
+                    "EpochType.is_adaptation(epoch.config.type) and self._history_required_for_tuning"),
+      note="kernels are tuned only when some kernel needs the history", expect_rule="C07.R8"),
     # ---- twins
     V("c07_t_seq_tune_comp", "T", Q, "KernelSequence.start_epoch",
       lambda nd: isinstance(nd, ast.Assign) and ast.unparse(nd.targets[0]) == "states",
